@@ -159,3 +159,87 @@ _set_contracts = contracts
 
 def contracts():
     return _set_contracts() + [call_watcher_contract(), update_event_type_contract()]
+
+
+# ======================================================================================
+# Comparator.compare_iterator / compare_mapping — container equality relative to element equality
+# ======================================================================================
+is_eq = z3.Function("is_equal", vm.V, vm.V, z3.BoolSort())
+
+
+def _install_is_equal(I):
+    def is_equal(I, st, fv, args, kwargs, ctx):
+        return [(st, BoolV(is_eq(I.term(args[0]), I.term(args[1]))))]
+    I.contracts["Comparator.is_equal"] = is_equal
+
+
+def compare_iterator_contract():
+    from pyvc.loops import LoopSpec
+    holder = {}
+
+    def configure(I):
+        _install_is_equal(I)
+
+    def setup(I, st):
+        U = I.U
+        a, b = Sym(U.fresh("obj1")), Sym(U.fresh("obj2"))
+        # sequences compared position by position: lists and tuples (sets: known finding C03-b01)
+        st.pc += [U.has_type(a.t, ["tuple", "list"]), U.has_type(b.t, ["tuple", "list"])]
+        f = S.fold(I, "all_positions_equal", lambda x, i: is_eq(x, vm.titem(b.t, i)), indexed=True)
+        holder["f"] = f
+        f.of_value(a.t, unfold=0)
+        c, m, fd = I.src.find_method("Comparator", "compare_iterator")
+        fv = FuncV("repo", module=m, cls=c, node=fd, self=ClsV("Comparator"), qual="Comparator.compare_iterator")
+        return fv, [a, b], {}, {"a": a.t, "b": b.t, "f": f, "symbols": {}}
+
+    def post(I, info, st, oc):
+        if isinstance(oc, Raise):
+            return [("does-not-raise", z3.BoolVal(False))]
+        t = I.truth_in(st, oc)
+        tb = z3.BoolVal(t) if isinstance(t, bool) else t
+        a, b = info["a"], info["b"]
+        want = z3.And(vm.ty(a) == vm.ty(b), vm.tlen(a) == vm.tlen(b), info["f"].tfn(a, vm.tlen(a)))
+        return [("equal  <=>  same container type, same length and equal elements at every position "
+                 "(a genuine change is never suppressed; equal containers are always equal)", tb == want)]
+    loops = {("Comparator.compare_iterator", "zip"): LoopSpec("zip", inv=lambda I, st, pre: pre.all(holder["f"]), name="positions-equal")}
+    return FunctionContract("param.parameterized:Comparator.compare_iterator", "C03", setup, post, configure=configure,
+                            loops=loops, name="Comparator.compare_iterator")
+
+
+def compare_mapping_contract():
+    from pyvc.loops import LoopSpec
+    holder = {}
+
+    def configure(I):
+        _install_is_equal(I)
+
+    def setup(I, st):
+        U = I.U
+        d1 = I.alloc_dict(st, keys=U.fresh_seq("keys1"), vals=z3.Const("vals1", z3.ArraySort(vm.V, vm.V)))
+        d2 = I.alloc_dict(st, keys=U.fresh_seq("keys2"), vals=z3.Const("vals2", z3.ArraySort(vm.V, vm.V)))
+        h1, h2 = st.heap[d1.oid], st.heap[d2.oid]
+        k2, v1, v2 = h2.keys, h1.vals, h2.vals
+        f = S.fold(I, "all_keys_match", lambda k: z3.And(z3.Contains(k2, z3.Unit(k)), is_eq(z3.Select(v1, k), z3.Select(v2, k))))
+        holder["f"] = f
+        c, m, fd = I.src.find_method("Comparator", "compare_mapping")
+        fv = FuncV("repo", module=m, cls=c, node=fd, self=ClsV("Comparator"), qual="Comparator.compare_mapping")
+        return fv, [d1, d2], {}, {"k1": h1.keys, "k2": k2, "f": f, "symbols": {}}
+
+    def post(I, info, st, oc):
+        if isinstance(oc, Raise):
+            return [("does-not-raise", z3.BoolVal(False))]
+        t = I.truth_in(st, oc)
+        tb = z3.BoolVal(t) if isinstance(t, bool) else t
+        want = z3.And(z3.Length(info["k1"]) == z3.Length(info["k2"]), info["f"].sfn(info["k1"]))
+        return [("equal  <=>  same number of keys, every key of the first is a key of the second and the values "
+                 "stored under the SAME key are equal (independent of insertion order)", tb == want)]
+    loops = {("Comparator.compare_mapping", "obj1"): LoopSpec("obj1", inv=lambda I, st, pre: pre.all(holder["f"]), name="keys-match")}
+    return FunctionContract("param.parameterized:Comparator.compare_mapping", "C03", setup, post, configure=configure,
+                            loops=loops, name="Comparator.compare_mapping")
+
+
+_c03_base2 = contracts
+
+
+def contracts():
+    return _c03_base2() + [compare_iterator_contract(), compare_mapping_contract()]
